@@ -61,12 +61,13 @@ var c19Topics = []string{"t", "u"}
 var c19Server int64
 
 type c19Env struct {
-	t       *tr.Writer
-	broker  *push.Broker
-	stop    func()
-	proxies map[string]*c19Proxy
-	clients map[string]*core.Client
-	m       int64
+	t                    *tr.Writer
+	broker               *push.Broker
+	stop                 func()
+	proxies              map[string]*c19Proxy
+	clients              map[string]*core.Client
+	m                    int64
+	pollHook, polledHook func(id string) // before a poll is issued / after it has returned
 }
 
 func newC19Env(t *tr.Writer, timeout time.Duration) *c19Env {
@@ -129,7 +130,13 @@ func c19Int(v interface{}) int {
 }
 
 func (e *c19Env) poll(id string) (int, bool) {
+	if e.pollHook != nil {
+		e.pollHook(id)
+	}
 	res, err := e.proxies[id].Message()
+	if e.polledHook != nil {
+		e.polledHook(id)
+	}
 	if err != nil {
 		e.t.Emit(tr.Rec{"ev": "pollErr", "id": id, "err": err.Error()})
 		return 0, false
@@ -559,6 +566,21 @@ func c19HeartBeat(t *tr.Writer, c c19Case) {
 	hb := time.Duration(c.HBMs) * time.Millisecond
 	e := newC19EnvOn(t, c.Kind, time.Duration(c.TimeoutMs)*time.Millisecond, hb)
 	defer e.close()
+	// the scenarios poll well within the heart beat; on a machine so loaded that a poll comes later than
+	// that all the same, the lapse is recorded (the broker may then have taken the client offline)
+	lastPoll := time.Now()
+	origPoll := e.pollHook
+	_ = origPoll
+	e.pollHook = func(id string) {
+		if id == "a" && time.Since(lastPoll) > hb*7/10 {
+			t.Emit(tr.Rec{"ev": "lapse", "id": "a"})
+		}
+	}
+	e.polledHook = func(id string) {
+		if id == "a" {
+			lastPoll = time.Now()
+		}
+	}
 	rng := tr.NewRng(c.Seed)
 	e.subOp(c19Op{Op: "sub", ID: "a", Topic: "t"})
 	pubs := []string{"p1", "p2", "p3"}
